@@ -150,12 +150,14 @@ def work(item):
         if not bil:
             out['candidates'].append({'key': 'h_acomm:d=%d:bilinear' % d, 'what': 'ACommutator is not bilinear', 'kind': 'structure', 'd': d, 'fn': 'h_acomm'})
     # ---- the same results when the target shares storage with an operand or already has content
-    MODES = {0: 'target = second vector viewing the buffer of A', 1: 'target = second vector viewing the buffer of B', 2: 'target already holds the other operation\'s result', 3: 'target = A itself'}
+    MODES = {0: 'target = second vector viewing the buffer of A', 1: 'target = second vector viewing the buffer of B', 2: 'target already holds the other operation\'s result', 3: 'target = A itself',
+             4: 'A -= op(A,B)', 5: 'A += op(A,B)'}
     for which, base, nm in ((0, O, 'iCommutator'), (1, Q, 'ACommutator')):
         if base is None:
             continue
         base_t = RAW['h_icomm' if which == 0 else 'h_acomm']
-        for mode in (0, 1, 2, 3):
+        pa_ = [ctx.poly(x_) for x_ in a]
+        for mode in (0, 1, 2, 3, 4, 5):
             ps = h.run('h_comm_into', [I(which), I(mode), I(d), Buf('a', a), Buf('b', b), Buf('o', n=n)])
             exstats.append(h.last_ex.stats)
             if len(ps) != 1 or ps[0].status != 'ok' or ps[0].ret != 0:
@@ -172,6 +174,8 @@ def work(item):
             env_ = {('a%d' % k): Fraction(rr_.randint(-9, 9), 10) for k in range(n)}
             env_.update({('b%d' % k): Fraction(rr_.randint(-9, 9), 10) for k in range(n)})
             want_pt = [base_t[k] if not isinstance(base_t[k], Term) else T.evaluate(base_t[k], env_, real=True) for k in range(n)]
+            if mode in (4, 5):
+                want_pt = [env_['a%d' % k] + (Fraction(want_pt[k]) if mode == 5 else -Fraction(want_pt[k])) for k in range(n)]
             got_pt = [v if not isinstance(v, Term) else T.evaluate(v, env_, real=True) for v in vals]
             offp = [k for k in range(n) if abs(Fraction(got_pt[k]) - Fraction(want_pt[k])) > Fraction(1, 10 ** 9)]
             if offp:
@@ -179,7 +183,8 @@ def work(item):
                                           'kind': 'into', 'd': d, 'fn': 'h_comm_into', 'which': which, 'mode': mode})
                 continue
             got = [ctx.poly(v) for v in vals]
-            diff = [x - y for x, y in zip(got, base)]
+            ref_ = base if mode < 4 else [(pa_[k] + base[k]) if mode == 5 else (pa_[k] - base[k]) for k in range(n)]
+            diff = [x - y for x, y in zip(got, ref_)]
             if all(p_.l1() <= res.tol for p_ in diff):
                 out['obligations'].append({'obligation': '%s(A,B), %s: same result as into a fresh vector, d=%d' % (nm, MODES[mode], d), 'verdict': 'holds', 'max_l1': float(max([p_.l1() for p_ in diff] or [0]))})
             else:
@@ -251,7 +256,8 @@ def replay(chk, h, cand):
             av, bv = rng.uniform(-1, 1, n), rng.uniform(-1, 1, n)
             ret, o = h.native('h_comm_into', [I(cand['which']), I(cand['mode']), I(d), Buf('a', av), Buf('b', bv), Buf('o', [np.nan] * n)])
             ret2, o2 = h.native('h_icomm' if cand['which'] == 0 else 'h_acomm', [I(d), Buf('a', av), Buf('b', bv), Buf('o', [np.nan] * n)])
-            dev = np.abs(np.array(o['o']) - np.array(o2['o'])).max()
+            ref_ = np.array(o2['o']) if cand['mode'] < 4 else (av + np.array(o2['o']) if cand['mode'] == 5 else av - np.array(o2['o']))
+            dev = np.abs(np.array(o['o']) - ref_).max()
             worst = max(worst, float('inf') if dev != dev else dev)
         return worst > 1e-9, worst
     if cand['kind'] in ('structure', 'unwritten'):
